@@ -1,4 +1,4 @@
-//go:build verif_harness
+//go:build verif_harness && cgo
 
 package crypto
 
@@ -437,6 +437,35 @@ func zzC16_pop(which int, tagLen int) {
 		ok, err := BLSVerifyPOP(pk, cb)
 		verifAssert(err == nil, "no error")
 		verifAssert(ok == cp.equals(decodeSigPoint(pop)), "BLSVerifyPOP accepts exactly the PoP group element")
+	case 6:
+		// public key objects obtained by aggregation and removal rather than from a private key or a decoder
+		verifAssume(!x.equals(&y))
+		pk2 := newPrKeyBLSBLS12381(&y).PublicKey()
+		agg, err := AggregateBLSPublicKeys([]PublicKey{pk, pk2})
+		verifAssert(err == nil, "aggregation")
+		back, err := RemoveBLSPublicKeys(agg, []PublicKey{pk2})
+		verifAssert(err == nil, "removal")
+		ok, err := BLSVerifyPOP(back, pop)
+		verifAssert(bAnd(ok, err == nil), "the PoP verifies under the same key obtained by aggregation and removal")
+		idk, err := RemoveBLSPublicKeys(agg, []PublicKey{pk, pk2})
+		verifAssert(err == nil, "removal of all keys")
+		ok, err = BLSVerifyPOP(idk, pop)
+		verifAssert(bAnd(!ok, err == nil), "never under an identity key obtained by removing all keys")
+		ok, err = BLSVerifyPOP(idk, g1Serialization)
+		verifAssert(bAnd(!ok, err == nil), "the identity PoP is rejected under an identity key obtained by removing all keys")
+	case 7:
+		// y = -x: the aggregate is the identity key; removing pk(y) from the identity key gives pk(x)
+		sum, _ := AggregateBLSPrivateKeys([]PrivateKey{sk, newPrKeyBLSBLS12381(&y)})
+		verifAssume(sum.(*prKeyBLSBLS12381).scalar.isZero())
+		pk2 := newPrKeyBLSBLS12381(&y).PublicKey()
+		agg, err := AggregateBLSPublicKeys([]PublicKey{pk, pk2})
+		verifAssert(err == nil, "aggregation")
+		ok, err := BLSVerifyPOP(agg, g1Serialization)
+		verifAssert(bAnd(!ok, err == nil), "the identity PoP is rejected under an identity key obtained by aggregating cancelling keys")
+		back, err := RemoveBLSPublicKeys(IdentityBLSPublicKey(), []PublicKey{pk2})
+		verifAssert(err == nil, "removal from the identity key")
+		ok, err = BLSVerifyPOP(back, pop)
+		verifAssert(bAnd(ok, err == nil), "the PoP verifies under the same key obtained by removal from the identity key")
 	}
 	verifReach("pop")
 }
@@ -744,8 +773,9 @@ func zzC02_errors() {
 
 // ---------------------------------------------------------------------------------------------
 // C03: batch verification = individual verification, index by index.
-// kinds per position (base 8 digits of `kinds`): 0 valid | 1 valid + d_i*g1 (independent error) | 2 malformed |
-// 3 short | 4 valid + torsion point | 5 identity public key | 6 valid + D*g1 | 7 valid - D*g1 (6 and 7 share D)
+// kinds per position (base 10 digits of `kinds`): 0 valid | 1 valid + d_i*g1 (independent error) | 2 malformed |
+// 3 short | 4 valid + torsion point | 5 identity public key | 6 valid + D*g1 | 7 valid - D*g1 (6 and 7 share D) |
+// 8 valid followed by one more byte | 9 the valid signature twice (96 bytes)
 func zzC03_batch(n, kinds int) {
 	msg := nondetBytes(2)
 	h := testHasher("batch-tag")
@@ -762,7 +792,7 @@ func zzC03_batch(n, kinds int) {
 		sk := newPrKeyBLSBLS12381(&x)
 		pks[i] = sk.PublicKey()
 		sig, _ := sk.Sign(msg, h)
-		k := digit(kinds, i, 8)
+		k := digit(kinds, i, 10)
 		switch k {
 		case 0:
 			sigs[i] = sig
@@ -793,6 +823,10 @@ func zzC03_batch(n, kinds int) {
 		case 5:
 			sigs[i] = sig
 			pks[i] = IdentityBLSPublicKey()
+		case 8:
+			sigs[i] = append(append([]byte{}, sig...), nondetByte()) // a valid signature followed by one more byte
+		case 9:
+			sigs[i] = append(append([]byte{}, sig...), sig...) // 96 bytes: the valid signature twice
 		}
 	}
 	res, err := BatchVerifyBLSSignaturesOneMessage(pks, sigs, msg, h)
@@ -801,7 +835,7 @@ func zzC03_batch(n, kinds int) {
 	for i := 0; i < n; i++ {
 		ind, _ := pks[i].Verify(sigs[i], msg, h)
 		verifAssert(res[i] == ind, "batch verdict = individual verdict at every index")
-		verifAssert(ind == (digit(kinds, i, 8) == 0), "individual verdicts are as constructed")
+		verifAssert(ind == (digit(kinds, i, 10) == 0), "individual verdicts are as constructed")
 	}
 	verifReach("batch")
 }
